@@ -26,6 +26,7 @@ def parseOp (prim : String) (s : String) : Option SOp :=
     | "gtwait", some a => if prim == "mon" then a.toNat?.map .twait else none
     | "tid", none => some .tid
     | "yield", none => some .yield
+    | "sleep", some a => a.toNat?.map .sleep
     | "try", some a => a.toNat?.map .try_
     | "unlock", none => some .unlock
     | "signal", none => some .signal
@@ -62,7 +63,7 @@ def mkWorld (prim : String) (init sec nsec quantum spur eintr cfail : Nat) (prog
     else if prim == "mon" then some (.mon (Monitor.init now spur Nstd.Generated.SyncMonitorOrder.setSignalsFirst))   -- the order of set() in the current source
     else if prim == "thr" then some .thr
     else none
-  p.map fun p => { prim := p, thr := Thr.init cfail, progs := progs, pos := Array.replicate progs.size 0, quantum := quantum }
+  p.map fun p => { prim := p, thr := Thr.init cfail, slp := Sleep.init now, progs := progs, pos := Array.replicate progs.size 0, quantum := quantum }
 
 def parseScen (ws : List String) : Option World :=
   match ws with
